@@ -124,7 +124,7 @@ impl Part for WirePart {
         "pool_size 1..4, clients pool_size..3*pool_size+1, both pool modes; per-client histories of generated transactions mixed with aborts (socket drop between transactions, inside a transaction, before a delayed reply, after part of a message), Terminate, statement errors, server closing mid-reply, lone Sync, failed COPY followed by a failing statement, plus 0..2 kills of all backend sessions; a separate class has a 60..200 ms connect_timeout (optionally checkout_failure_limit) so waiters time out. Oracle: live authenticated sessions per mock listener never exceed pool_size for > 300 ms; every request of a live client is answered (or refused with the pool error and the client stays usable); afterwards pool_size probe clients hold pool_size simultaneous transactions and SHOW POOLS/SERVERS report nothing active. Non-trivial = at least one abort/fault while a connection was held AND more clients than pool_size".into()
     }
     fn cases(&self, tier: Tier) -> u64 {
-        tier.pick(300, 9_000)
+        tier.pick(1_200, 18_000)
     }
     fn strategy(&self, _tier: Tier) -> BoxedStrategy<Case> {
         case_strategy()
